@@ -648,7 +648,7 @@ fn z_or(y: usize, z: usize, rng: &mut Rng) -> usize {
 
 pub fn run(cfg: &Cfg, rep: &mut Report) {
     rep.rule = "Seeded histories on the real fungible-vault example over a Base asset token, one instance per decimals offset 0..=10 (every offset in every shard): deposit/mint/withdraw/redeem (self and via operator allowance), share transfers, direct asset donations, asset mints; amounts from {0,1,2,3,7,10^k+-1} and the neighbours of balances, max_withdraw, total assets and allowances, a quarter of the histories with amounts up to 2^126. Distinct case = (offset, entry point, vault state {empty,fresh,skewed by donation}, amount class, inexact division?, outcome).".into();
-    let per_off = cfg.pick(2u64, 20);
+    let per_off = cfg.pick(4u64, 30);
     let steps = cfg.pick(150usize, 300);
     for off in 0..=10u32 {
         for k in 0..per_off {
